@@ -81,6 +81,8 @@ class RF24:
         if pipe_num < 0 or pipe_num > 5:
             raise ValueError("pipe_number must be in range [0, 5]")
         open_pipes = self._reg_read(2)
+        if not pipe_num:
+            self._pipe0_read_addr = None
         if open_pipes & (1 << pipe_num):
             self._reg_write(2, open_pipes & ~(1 << pipe_num))
 
